@@ -1,5 +1,5 @@
 (* C14 — HTTP: a cache hit replays the origin response faithfully. Statements over HttpModel's capturing writer composed with the net/http reference writer (HttpProofs.v). Isolation from later mutation (aliasing) is not expressible in a value-semantics model and is decided by the harness attack in the http stream. Only `exact` + Print Assumptions. *)
-Require Import KV.Base KV.HttpModel KV.HttpProofs KV.AliasModel KV.AliasProofs.
+Require Import KV.Base KV.HttpModel KV.HttpProofs KV.AliasModel KV.AliasProofs KV.AliasBody.
 Open Scope Z_scope.
 
 (* for every handler script without Hijack: status, header snapshot (+ the MISS marker) and body captured are exactly what the client was sent: implicit 200, several writes, 1xx first, edits after commit, superfluous WriteHeader *)
@@ -181,6 +181,29 @@ Theorem c14_alias_hit_noclone_refuted :
          snd (hit_noclone (step s1 [5; 0; 0; 99])) <> snd (hit_noclone s0) /\ shares s1 = [1; 0; 0].
 Proof. exact hit_noclone_refuted. Qed.
 
+(* the captured body is the concatenation of the bytes passed to Write, whatever the handler or anyone else overwrote through retained slices in between (before a retaining policy call) *)
+Theorem c14_body_is_written_bytes :
+  forall (ign : list Z) (ops : list (list Z)),
+         Forall (fun op : list Z => op <> [4; 1]) ops ->
+         body (steps (init ign) ops) = flat_map written ops.
+Proof. exact AliasBody.body_is_written_bytes. Qed.
+
+(* what a store puts into the cache is exactly that body, for a retaining and a non-retaining policy *)
+Theorem c14_stored_body_is_written_bytes :
+  forall (ign : list Z) (ops : list (list Z)) (r : Z),
+         Forall (fun op : list Z => op <> [4; 1]) ops ->
+         exists st m b : Z,
+           stored (step (steps (init ign) ops) [4; r]) = Some (st, m, b) /\
+           arr (step (steps (init ign) ops) [4; r]) b = flat_map written ops.
+Proof. exact AliasBody.stored_body_is_written_bytes. Qed.
+
+(* one step of any kind changes the capture buffer only by the bytes it writes *)
+Theorem c14_body_step :
+  forall (s : ast) (op : list Z),
+         WF s ->
+         BufPriv s -> op <> [4; 1] -> body (step s op) = body s ++ written op /\ BufPriv (step s op).
+Proof. exact AliasBody.body_step. Qed.
+
 Print Assumptions c14_snapshot_faithful.
 Print Assumptions c14_replay_faithful.
 Print Assumptions c14_markers.
@@ -200,3 +223,6 @@ Print Assumptions c14_alias_commit_snapshot.
 Print Assumptions c14_alias_nocloneH_refuted.
 Print Assumptions c14_alias_nocloneB_refuted.
 Print Assumptions c14_alias_hit_noclone_refuted.
+Print Assumptions c14_body_is_written_bytes.
+Print Assumptions c14_stored_body_is_written_bytes.
+Print Assumptions c14_body_step.
